@@ -19,11 +19,11 @@ fn c05_rgb565_all_values() {
     // the colour's channels are the fields of the raw value (ties the uninterpreted `raw565` of the Verus contracts to e-g)
     assert!(c.r() as u16 == v >> 11 && c.g() as u16 == (v >> 5) & 0x3f && c.b() as u16 == v & 0x1f);
     let b = rgb565_to_bytes(c);
-    assert!(b == [(v >> 8) as u8, (v & 0xff) as u8], "C05: RGB565 must go out as two bytes, most significant first");
-    assert!(b[0] == (c.r() << 3) | (c.g() >> 3) && b[1] == ((c.g() & 7) << 5) | c.b(), "C05: RRRRRGGG GGGBBBBB");
+    kani::assert(b == [(v >> 8) as u8, (v & 0xff) as u8], "C05: RGB565 must go out as two bytes, most significant first");
+    kani::assert(b[0] == (c.r() << 3) | (c.g() >> 3) && b[1] == ((c.g() & 7) << 5) | c.b(), "C05: RRRRRGGG GGGBBBBB");
     let w = rgb565_to_u16(c);
-    assert!(w == [v], "C05: RGB565 on a 16-bit bus is one word");
-    assert!(Rgb565::from(RawU16::new(u16::from_be_bytes(b))) == c, "C05: decoding returns the drawn colour");
+    kani::assert(w == [v], "C05: RGB565 on a 16-bit bus is one word");
+    kani::assert(Rgb565::from(RawU16::new(u16::from_be_bytes(b))) == c, "C05: decoding returns the drawn colour");
 }
 
 /// RGB666: three bytes R,G,B, six bits left-aligned, for all 262 144 values
@@ -34,10 +34,10 @@ fn c05_rgb666_all_values() {
     let c = Rgb666::from(RawU24::new(v));
     assert!(c.r() as u32 == v >> 12 && c.g() as u32 == (v >> 6) & 0x3f && c.b() as u32 == v & 0x3f);
     let b = rgb666_to_bytes(c);
-    assert!(b == [c.r() << 2, c.g() << 2, c.b() << 2], "C05: RGB666 must go out as R,G,B with the six bits left-aligned");
+    kani::assert(b == [c.r() << 2, c.g() << 2, c.b() << 2], "C05: RGB666 must go out as R,G,B with the six bits left-aligned");
     assert!(b[0] & 3 == 0 && b[1] & 3 == 0 && b[2] & 3 == 0);
     let back = Rgb666::from(RawU24::new(((b[0] as u32 >> 2) << 12) | ((b[1] as u32 >> 2) << 6) | (b[2] as u32 >> 2)));
-    assert!(back == c, "C05: decoding returns the drawn colour");
+    kani::assert(back == c, "C05: decoding returns the drawn colour");
 }
 
 /// a solid fill encodes a colour identically to a per-pixel stream, on every bus width the type supports
@@ -50,16 +50,16 @@ fn c05_fill_and_stream_encode_identically() {
     // 8-bit bus
     let mut di: RecIface<u8, 0> = RecIface::new(&clock);
     assert!(<Rgb565 as InterfacePixelFormat<u8>>::send_pixels(&mut di, core::iter::once(c)).is_ok());
-    assert!(di.px_words == 2 && di.px_count == 1 && di.px_first3 == [Some((v >> 8) as u8), Some(v as u8), None], "C05: stream encoding (u8)");
+    kani::assert(di.px_words == 2 && di.px_count == 1 && di.px_first3 == [Some((v >> 8) as u8), Some(v as u8), None], "C05: stream encoding (u8)");
     let s = di.px_first3;
     assert!(<Rgb565 as InterfacePixelFormat<u8>>::send_repeated_pixel(&mut di, c, n).is_ok());
-    assert!(di.repeated && di.px_count == n as u64 && di.px_first3 == s, "C05: fill encoding differs from stream encoding (u8)");
+    kani::assert(di.repeated && di.px_count == n as u64 && di.px_first3 == s, "C05: fill encoding differs from stream encoding (u8)");
     // 16-bit bus
     let mut d16: RecIface<u16, 2> = RecIface::new(&clock);
     assert!(<Rgb565 as InterfacePixelFormat<u16>>::send_pixels(&mut d16, core::iter::once(c)).is_ok());
-    assert!(d16.px_words == 1 && d16.px_first3 == [Some(v), None, None], "C05: stream encoding (u16)");
+    kani::assert(d16.px_words == 1 && d16.px_first3 == [Some(v), None, None], "C05: stream encoding (u16)");
     assert!(<Rgb565 as InterfacePixelFormat<u16>>::send_repeated_pixel(&mut d16, c, n).is_ok());
-    assert!(d16.px_count == n as u64 && d16.px_first3 == [Some(v), None, None], "C05: fill encoding (u16)");
+    kani::assert(d16.px_count == n as u64 && d16.px_first3 == [Some(v), None, None], "C05: fill encoding (u16)");
     // RGB666
     let v6: u32 = kani::any();
     kani::assume(v6 < (1 << 18));
@@ -67,9 +67,9 @@ fn c05_fill_and_stream_encode_identically() {
     let want = [Some(((v6 >> 12) as u8) << 2), Some((((v6 >> 6) & 0x3f) as u8) << 2), Some(((v6 & 0x3f) as u8) << 2)];
     let mut d6: RecIface<u8, 1> = RecIface::new(&clock);
     assert!(<Rgb666 as InterfacePixelFormat<u8>>::send_pixels(&mut d6, core::iter::once(c6)).is_ok());
-    assert!(d6.px_words == 3 && d6.px_first3 == want, "C05: stream encoding (rgb666)");
+    kani::assert(d6.px_words == 3 && d6.px_first3 == want, "C05: stream encoding (rgb666)");
     assert!(<Rgb666 as InterfacePixelFormat<u8>>::send_repeated_pixel(&mut d6, c6, n).is_ok());
-    assert!(d6.px_count == n as u64 && d6.px_first3 == want, "C05: fill encoding (rgb666)");
+    kani::assert(d6.px_count == n as u64 && d6.px_first3 == want, "C05: fill encoding (rgb666)");
 }
 
 /// COLMOD codes announced for the colour types (BitsPerPixel::from_rgb_color is a const fn over e-g constants)
